@@ -7,7 +7,9 @@ from pyvc import native
 def run(rep, tier, seed):
     # P: clipping of the rectangle and the text splice the raw path is built on
     specs = [s for s in k_index.specs('C10') if s.name == 'clip_src_loc'] + k_offset.specs_text('C10')
-    verify_all(rep, specs)
+    # a raw edit of equal byte length and line count takes the zero-delta path of _offset: everything below must still be
+    # flushed, or the NEXT raw edit cuts its statement copy at a stale block end
+    verify_all(rep, specs + k_offset.specs_flush('C10'))
     k_order.c10_order(rep, 'C10')
     k_offset.code_as_lines_finite(rep, 'C10')
     sec = native.run('b_raw', 'main', {'props': ['C10'], 'tier': tier, 'seed': seed, 'ops': ['reparse', 'rawput'],
